@@ -976,6 +976,33 @@ def pd_fill_silent(prog: Program) -> RuleResult:
     return r
 
 
+def mc_clear(prog: Program) -> RuleResult:
+    """Assignment of a collection (and of the field to itself, and += / |=, which end in one) first empties the container and then adds the
+    assigned elements: 'exactly the elements Python semantics dictate' needs the emptying to be total.  The builtin clear() is; removing the
+    elements one by one through remove() / discard() - guarded by `in` or not - looks each element up by equality and hash, and an element
+    whose hash changed while it was a member (a dataclass hashed by a mutable name) is not found: it survives the assignment."""
+    r = RuleResult("MC-CLEAR", "emptying a managed container does not depend on looking its elements up", floor=2)
+    mc = prog.cls(MC)
+    n = 0
+    for c in [c for c in prog.subclasses(mc.qual, strict=True) if _builtin_base(prog, c)]:
+        f = prog.lookup(c.qual, "_clear")
+        if f is None:
+            r.fail(f"{c.name}._clear#total", c.loc, "", "the container has no way to be emptied")
+            continue
+        n += 1
+        cfg = CFG(f.node)
+        total = [nd for nd in cfg.nodes if nd.stmt is not None and any(call_name(x) == "clear" and isinstance(x.func, ast.Attribute) and (is_super_call(x) or (isinstance(x.func.value, ast.Name) and x.func.value.id == f.params[0]))
+                                                                        for part in cfg._own_parts(nd) for x in calls_in(part))]
+        ok = any(cfg.postdominates(nd.id, cfg.entry) for nd in total)
+        by_lookup = [x for x in calls_in(f.node) if call_name(x) in ("remove", "discard", "_remove_item", "pop")]
+        r.check(ok, f"{c.name}._clear#total", site(f, by_lookup[0]) if by_lookup else site(f), src(by_lookup[0])[:60] if by_lookup else "", "every path empties the container with the builtin clear()",
+                f"{f.short} empties the container " + (f"through `{src(by_lookup[0])[:40]}`, element by element" if by_lookup else "on some paths only")
+                + ": an element that cannot be found any more (its hash changed while it was a member of the set) stays, and the field holds it next to the assigned elements")
+    if n < 2:
+        raise AnalysisError("MC-CLEAR: monitored list/set classes not found")
+    return r
+
+
 def _sg_purge(prog):
     # an element written to a field is recorded unless its relation "exists": a pair a swept instance left in the relation index answers for
     # whoever reuses its node index
@@ -1017,4 +1044,4 @@ def _pd_field(prog):
 
 def run(prog: Program, tier: str) -> List[RuleResult]:
     alias = pd_alias(prog)
-    return [guard(lambda: _pd_field(prog)), guard(lambda: _sg_purge(prog)), guard(lambda: pd_element(prog)), guard(lambda: mc_cover(prog)), guard(lambda: mc_hook(prog)), alias, guard(lambda: pd_aug(prog, not alias.failed)), guard(lambda: pd_seq(prog)), guard(lambda: pd_single(prog)), guard(lambda: mc_once(prog)), guard(lambda: pd_fresh(prog)), guard(lambda: mc_eq(prog)), guard(lambda: mc_args(prog)), guard(lambda: mc_reject(prog)), guard(lambda: pd_fill_silent(prog)), guard(lambda: user_truth(prog, ["property_descriptor.property_descriptor", "property_descriptor.monitored_container", "property_descriptor.property_descriptor_relation"], 2))]
+    return [guard(lambda: _pd_field(prog)), guard(lambda: _sg_purge(prog)), guard(lambda: pd_element(prog)), guard(lambda: mc_cover(prog)), guard(lambda: mc_hook(prog)), alias, guard(lambda: pd_aug(prog, not alias.failed)), guard(lambda: pd_seq(prog)), guard(lambda: pd_single(prog)), guard(lambda: mc_once(prog)), guard(lambda: pd_fresh(prog)), guard(lambda: mc_eq(prog)), guard(lambda: mc_args(prog)), guard(lambda: mc_reject(prog)), guard(lambda: pd_fill_silent(prog)), guard(lambda: mc_clear(prog)), guard(lambda: user_truth(prog, ["property_descriptor.property_descriptor", "property_descriptor.monitored_container", "property_descriptor.property_descriptor_relation"], 2))]
